@@ -12,7 +12,7 @@ SecSeqs == UNION {{[k \in 1..n |-> [size |-> sz[k], fpos |-> p[k]]] : sz \in [1.
 LfaNews == IF Tier = "q" THEN {64, 128} ELSE {64, 72, 200}
 Slacks == IF Tier = "q" THEN {0, 8} ELSE {0, 3, 8}
 Trails == IF Tier = "q" THEN {0, 3, 8} ELSE {0, 1, 7, 8, 11}
-Certs == IF Tier = "q" THEN {0, 16, 13} ELSE {0, 8, 24, 13, 21}      \* 13, 21: a table whose recorded size is not a multiple of 8
+Certs == IF Tier = "q" THEN {0, 16, 13} ELSE {0, 8, 24, 13}      \* 13: a table whose recorded size is not a multiple of 8
 Gaps == {0, 5}
 GapPoss == IF Tier = "q" THEN {1} ELSE {1, 2}
 
